@@ -8,10 +8,28 @@ open Karp.Spec.LifecycleOrder (StepObs CreateObs Acc)
 
 /-! ## JSON -> vocabulary -/
 
+/-- `[key, effect]`, `[key, effect, value]` or `[key, effect, value, timeAdded]` -/
 def parseTaint (j : Json) : Except String Taint := do
   match ← asArr j with
-  | [k, e] => pure ⟨← asStr k, ← asStr e⟩
-  | _ => throw "taint: expected [key, effect]"
+  | [k, e] => pure { key := ← asStr k, effect := ← asStr e }
+  | [k, e, v] => pure { key := ← asStr k, effect := ← asStr e, value := ← asStr v }
+  | [k, e, v, s] => pure { key := ← asStr k, effect := ← asStr e, value := ← asStr v, stamp := ← asStr s }
+  | _ => throw "taint: expected [key, effect(, value(, timeAdded))]"
+
+/-- the harness' canonical form: trailing empty fields dropped -/
+def taintJson (t : Taint) : Json :=
+  if t.stamp != "" then jArr [jStr t.key, jStr t.effect, jStr t.value, jStr t.stamp]
+  else if t.value != "" then jArr [jStr t.key, jStr t.effect, jStr t.value]
+  else jArr [jStr t.key, jStr t.effect]
+
+def parseReady (s : String) : Except String NodeReady :=
+  match s with
+  | "T" => pure .true_
+  | "F" => pure .false_
+  | "U" => pure .unknown
+  | "N" => pure .absent
+  | "" => pure .absent
+  | _ => throw s!"bad node Ready status {s}"
 
 def taintsF (j : Json) (k : String) : Except String (List Taint) := do
   (← arrD j k).mapM parseTaint
@@ -59,8 +77,10 @@ def parseTri (s : String) : Except String Tri :=
 
 def parseReason (s : String) : Except String Reason :=
   match s.splitOn "|" with
-  | ["StartupTaintsExist", k, e] => pure (.startupTaintsExist ⟨k, e⟩)
-  | ["KnownEphemeralTaintsExist", k, e] => pure (.ephemeralTaintsExist ⟨k, e⟩)
+  | ["StartupTaintsExist", k, e] => pure (.startupTaintsExist { key := k, effect := e })
+  | ["KnownEphemeralTaintsExist", k, e] => pure (.ephemeralTaintsExist { key := k, effect := e })
+  | ["StartupTaintsExist", k, e, v] => pure (.startupTaintsExist { key := k, effect := e, value := v })
+  | ["KnownEphemeralTaintsExist", k, e, v] => pure (.ephemeralTaintsExist { key := k, effect := e, value := v })
   | [r] =>
     match r with
     | "AwaitingReconciliation" => pure .awaiting
@@ -88,7 +108,8 @@ def parseClaim (j : Json) : Except String Claim := do
 def parseNode (j : Json) : Except String Node := do
   pure { taints := ← taintsF j "taints", finalizer := ← boolD j "fin" false, ownerRef := ← boolD j "owner" false,
          userLabels := ← boolD j "ulabels" false, provLabels := ← boolD j "plabels" false, regLabel := ← boolD j "reg" false,
-         initLabel := ← boolD j "init" false, doNotSync := ← boolD j "dns" false, ready := ← boolD j "ready" false,
+         initLabel := ← boolD j "init" false, doNotSync := ← boolD j "dns" false,
+         readyCond := ← parseReady ((← strO j "ready").getD ""),
          resOK := ← boolD j "res" false }
 
 def parseCall (s : String) : Except String Call := do
@@ -130,6 +151,8 @@ def parseResult (s : String) : Except String Result :=
 /-- one recorded step of the implementation -/
 structure ImplStep where
   obs : StepObs
+  /-- the cluster's other Nodes (no provider id, or another instance's) -/
+  strays : List Node
   finalizePath : Bool   -- the calls are those of the deletion path (not modelled call by call)
   instances : Nat
   now : Nat
@@ -144,6 +167,7 @@ def parseImplStep (j : Json) : Except String ImplStep := do
   let view ← match fldOpt j "view" with | some v => parseClaim v | none => pure { present := false }
   let claim ← match fldOpt j "claim" with | some v => parseClaim v | none => pure { present := false }
   let nodes ← (← arrD j "nodes").mapM parseNode
+  let strays ← (← arrD j "strays").mapM parseNode
   let rawCalls ← (← arrD j "calls").mapM asStr
   let finPath := isRec && view.present && view.deleting
   let calls ← if finPath then pure (parseCallsLenient rawCalls) else rawCalls.mapM parseCall
@@ -151,7 +175,7 @@ def parseImplStep (j : Json) : Except String ImplStep := do
     pure ({ ok := ← boolD c "ok" false, fin := ← boolD c "fin" false, present := ← boolD c "exists" false } : CreateObs))
   pure { obs := { isRec := isRec, fresh := false, view := view, calls := calls, result := ← parseResult ((← strO j "result").getD ""),
                   claim := claim, nodes := nodes, creates := creates },
-         finalizePath := finPath, instances := (← natO j "instances").getD 0, now := (← natO j "now").getD 0, rawCalls := rawCalls }
+         strays := strays, finalizePath := finPath, instances := (← natO j "instances").getD 0, now := (← natO j "now").getD 0, rawCalls := rawCalls }
 
 /-- input step -> model step; `impl` resolves what the (unmodelled) deletion path did -/
 def parseStep (j : Json) (impl : ImplStep) (w : World) : Except String Step := do
@@ -167,11 +191,19 @@ def parseStep (j : Json) (impl : ImplStep) (w : World) : Except String Step := d
       else {}
     pure (.reconcile lag co f fin)
   | "node" =>
-    pure (.env (.nodeAppear { taints := ← taintsF j "taints", ready := ← boolD j "ready" false, resOK := ← boolD j "res" false,
+    -- `rs` (T | F | U | N = no Ready condition at all) overrides the legacy Boolean `ready`
+    let rc ← match ← strO j "rs" with
+      | some r => parseReady r
+      | none => pure (if ← boolD j "ready" false then NodeReady.true_ else NodeReady.false_)
+    pure (.env (.nodeAppear { taints := ← taintsF j "taints", readyCond := rc, resOK := ← boolD j "res" false,
                               doNotSync := ← boolD j "dns" false, regLabel := ← boolD j "reg" false }))
+  -- a Node that is not this NodeClaim's: nothing the model looks at changes (the step still ages the cached copies)
+  | "stray" => pure (.env (.advance 0))
   | "gone" => pure (.env .nodesGone)
-  | "ready" => pure (.env (.setReady true))
-  | "unready" => pure (.env (.setReady false))
+  | "ready" => pure (.env (.setReady .true_))
+  | "unready" => pure (.env (.setReady .false_))
+  | "unkready" => pure (.env (.setReady .unknown))
+  | "noready" => pure (.env (.setReady .absent))
   | "res" => pure (.env (.setRes true))
   | "unres" => pure (.env (.setRes false))
   | "addt" => pure (.env (.addTaint (← parseTaint (← fld j "t"))))
@@ -181,8 +213,6 @@ def parseStep (j : Json) (impl : ImplStep) (w : World) : Except String Step := d
   | k => throw s!"bad step kind {k}"
 
 /-! ## Comparison of the model with the implementation -/
-
-def showTaints (ts : List Taint) : String := ",".intercalate (ts.map (fun t => s!"{t.key}:{t.effect}"))
 
 def diffClaim (m i : Claim) : Option String :=
   if m.present != i.present then some s!"claim.exists model={m.present} impl={i.present}"
@@ -213,21 +243,39 @@ def diffStep (idx : Nat) (w' : World) (o : Obs) (impl : ImplStep) : Option Strin
         else if w'.now != impl.now then some (pre ++ s!"clock model={w'.now} impl={impl.now}")
         else none
 
+/-- a "stray" input step as the Node it creates: no label, owner or finalizer of Karpenter's -/
+def parseStray (j : Json) : Except String (Option Node) := do
+  if (← strF j "k") != "stray" then return none
+  let rc ← match ← strO j "rs" with
+    | some r => parseReady r
+    | none => pure (if ← boolD j "ready" false then NodeReady.true_ else NodeReady.false_)
+  pure (some { taints := ← taintsF j "taints", readyCond := rc, resOK := ← boolD j "res" false })
+
 /-- run the model along the recorded history; returns the first difference and the spec observations
-    (with `fresh` filled in from the model's view bookkeeping, which only depends on the input) -/
-def replay (sp : Spec) : World → Claim → List Json → List ImplStep → Nat → Option String → List StepObs →
+    (with `fresh` filled in from the model's view bookkeeping, which only depends on the input).
+    `strays`: the Nodes of the cluster that are not this NodeClaim's, as the input created them — the lifecycle
+    controller must leave them exactly so. -/
+def replay (sp : Spec) : World → Claim → List Node → List Json → List ImplStep → Nat → Option String → List StepObs →
     Except String (Option String × List StepObs)
-  | _, _, [], _, _, d, acc => pure (d, acc.reverse)
-  | _, _, _ :: _, [], _, _, _ => throw "implementation recorded fewer steps than the input has"
-  | w, prev, j :: js, impl :: impls, idx, d, acc => do
+  | _, _, _, [], _, _, d, acc => pure (d, acc.reverse)
+  | _, _, _, _ :: _, [], _, _, _ => throw "implementation recorded fewer steps than the input has"
+  | w, prev, strays, j :: js, impl :: impls, idx, d, acc => do
     let s ← parseStep j impl w
     let (w', o) := step sp w s
+    let strays' := match ← parseStray j with
+      | some n => strays ++ [n]
+      | none => strays
     -- `fresh`: the copy the implementation was handed equals the API server's copy before the step
     let so := { impl.obs with fresh := impl.obs.isRec && decide (impl.obs.view = prev) }
     let d' := match d with
       | some x => some x
-      | none => diffStep idx w' o impl
-    replay sp w' impl.obs.claim js impls (idx + 1) d' (so :: acc)
+      | none => match diffStep idx w' o impl with
+        | some x => some x
+        | none =>
+          if impl.strays != strays' then
+            some s!"step {idx}: a Node that does not carry the instance's provider id was touched: expected={repr strays'} impl={repr impl.strays}"
+          else none
+    replay sp w' impl.obs.claim strays' js impls (idx + 1) d' (so :: acc)
 
 def lifecycle (inp impl : Json) : Except String Resp := do
   let (sp, fin) ← parseSpec (← fld inp "claim")
@@ -240,7 +288,7 @@ def lifecycle (inp impl : Json) : Except String Resp := do
     | .error e => pure { allowed := some false, why := s!"implementation output outside the model's vocabulary: {e}" }
     | .ok impls =>
     let w0 := World.init fin
-    let (d, obs) ← replay sp w0 w0.claim steps impls 0 none []
+    let (d, obs) ← replay sp w0 w0.claim [] steps impls 0 none []
     let acc0 : Acc := { prev := w0.claim, finEver := fin }
     let viol := Karp.Spec.LifecycleOrder.firstViolation sp acc0 obs 0
     let why := match viol, d with
@@ -263,10 +311,10 @@ def initChecks (inp impl : Json) : Except String Resp := do
   let reqs ← pairList inp "reqs"     -- requested extended resources (index, quantity)
   let alloc ← pairList inp "alloc"   -- node allocatable (index, quantity)
   let sp : Spec := { startup := startup }
-  let n : Node := { taints := nodeTaints, ready := true }
+  let n : Node := { taints := nodeTaints, readyCond := .true_ }
   let tj (t : Option Taint) : Json := match t with
     | none => Json.null
-    | some t => jArr [jStr t.key, jStr t.effect]
+    | some t => taintJson t
   -- `RequestedResourcesRegistered`: every non-zero request has non-zero allocatable
   let registered := reqs.all (fun (r, q) => q == 0 || alloc.any (fun (a, v) => a == r && v != 0))
   let model := jObj [("startup", tj (firstStartupTaint sp n)), ("ephemeral", tj (firstEphemeralTaint n)), ("resources", jBool registered)]
@@ -274,7 +322,7 @@ def initChecks (inp impl : Json) : Except String Resp := do
   let implStartupOK := (fldOpt impl "startup").isNone
   let implEphOK := (fldOpt impl "ephemeral").isNone
   let implRes ← boolF impl "resources"
-  let specStartup := startup.all (fun s => !nodeTaints.contains s)
+  let specStartup := startup.all (fun s => !Karp.Spec.LifecycleOrder.carries nodeTaints s)
   let specEph := nodeTaints.all (fun t => !Karp.Spec.LifecycleOrder.isEphemeral t)
   let specRes := reqs.all (fun (r, q) => q == 0 || (alloc.filter (fun (a, _) => a == r)).any (fun (_, v) => v > 0))
   let ok := implStartupOK == specStartup && implEphOK == specEph && implRes == specRes
@@ -286,6 +334,7 @@ def handle : Handler := fun op inp impl =>
   match op with
   | "c14.lifecycle" => lifecycle inp impl
   | "c14.faults" => lifecycle inp impl
+  | "c14.gates" => lifecycle inp impl
   | "c14.init" => initChecks inp impl
   | _ => .error s!"unknown op {op}"
 
